@@ -284,9 +284,23 @@ func (os *OutputStream) GetNext(ctx context.Context, lastseen robust.Id) []Messa
 	// Wait until a new message appears.
 	os.messagesMu.Lock()
 	for {
-		current, _ = os.getUnlocked(uint64(current.Messages[0].Id.Id))
+		refreshed, ok := os.getUnlocked(uint64(current.Messages[0].Id.Id))
+		if !ok {
+			// The message we were waiting behind was deleted (compacted)
+			// in the meantime, so start over.
+			os.messagesMu.Unlock()
+			return os.GetNext(ctx, lastseen)
+		}
+		current = refreshed
 		next, ok := os.getUnlocked(current.NextID)
 		if ok {
+			if next.Messages[0].Id.Id <= lastseen.Id {
+				// lastseen is more recent than what this node has stored
+				// so far (it is still catching up): this is not the next
+				// message after lastseen yet, keep following the chain.
+				current = next
+				continue
+			}
 			os.messagesMu.Unlock()
 			return next.Messages
 		}
